@@ -502,6 +502,11 @@ func c12WideUniverse() *c12Universe {
 			add(opReNick, o, n) // includes ReNick(n,n), used targets, the empty name
 		}
 	}
+	// names are compared exactly: a rename that only changes the letter case is a rename
+	add(opReNick, "a", "A")
+	add(opReNick, "me", "Me")
+	add(opReNick, "A", "b")
+	add(opGetNick, "A", "")
 	for _, c := range u.Chans {
 		add(opNewChannel, c, "")
 		add(opGetChannel, c, "")
